@@ -8,9 +8,10 @@ UNIT = Unit(
     properties=["C16"],
     rules=["attrs", ("strip", "tast::")],
     describe="typer::toplevel locality tests of the orphan rule: is_local_name / is_local_nominal_type answer true exactly when the package "
-             "segment (the text before the first `::`) IS the current package (unqualified names: Main/Builtin only) — for all names and types",
+             "segment (the text before the first `::`) IS the current package (unqualified names: Main/Builtin only) — for all names and types; and the two gates of define_trait_impl that use them (orphan rule; one impl per resolved trait and type)",
     trusted=["std str::split_once / contains / starts_with / == are modelled by text-level specs (shims str_*)",
-             "the orphan check that *uses* these predicates sits inside define_trait_impl (HashMap-heavy) and is not under contract"],
+             "FRAGMENT trait_impl_gates: define_trait_impl from the orphan test to the duplicate test (after the trait name has been resolved); the "
+             "rest of the function (method checking, the insertion under the same key) is not in this unit; the impl table and diagnostics are shims"],
     items=[
         Adt(file="crates/compiler/src/tast.rs", kw="enum", name="Ty", rules=["attrs"]),
         Raw(path="contracts/orphan.shim.rs"),
@@ -25,5 +26,16 @@ UNIT = Unit(
         Fn(file=T, name="is_local_nominal_type", ret="r",
            rewrites=[("is_local_name(current_package, name)", "is_local_name(current_package, string_as_str(name))")],
            contract="ensures r == nominal_is_local(current_package@, *ty),\n decreases *ty,"),
+        Fn(file=T, name="define_trait_impl", rename="trait_impl_gates", ret="r", rules=["attrs", ("strip", "tast::"), "fmtmsg"],
+           cut_from="let trait_local = is_local_name(&env.package, &trait_name_str);", cut_before="let trait_method_names: HashSet<String>", cut_tail="    true",
+           sig="fn trait_impl_gates(env: &PackageTypeEnv, diagnostics: &mut Diagnostics, trait_name_str: String, for_ty: Ty) -> bool",
+           rewrites=[(re.compile(r"diagnostics\.push\(Diagnostic::new\(\s*Stage::Typer,\s*Severity::Error,\s*rt_msg\(\),?\s*\)\);"), "push_error(diagnostics, rt_msg());", "*"),
+                     (re.compile(r"\breturn;"), "return false;", "*"), (re.compile(r"\.clone\(\)"), ".vclone()", "*"),
+                     ("is_local_name(&env.package, &trait_name_str)", "is_local_name(string_as_str(&env.package), string_as_str(&trait_name_str))"),
+                     ("is_local_nominal_type(&env.package, &for_ty)", "is_local_nominal_type(string_as_str(&env.package), &for_ty)")],
+           obligation="an impl gets past the gates of define_trait_impl only if the trait or the type is local to the package (orphan rule) AND no impl "
+                      "for the same (RESOLVED trait name, type) is registered yet (one implementation per trait and type); every refusal is an error diagnostic",
+           contract="""ensures r ==> (name_is_local(env.package@, trait_name_str@) || nominal_is_local(env.package@, for_ty)) && !env.cur.trait_env.trait_impls.has(trait_name_str@, for_ty),
+            !r ==> final(diagnostics).errors() == old(diagnostics).errors() + 1,"""),
     ],
 )
